@@ -5,6 +5,8 @@ pub mod c02_c03;
 pub mod c04;
 pub mod c05;
 pub mod c06;
+pub mod c07;
+pub mod c19;
 #[cfg(feature = "std")]
 pub mod c13;
 
@@ -16,6 +18,8 @@ pub fn dispatch(ctx: &Ctx, rep: &mut Report) -> bool {
         "C04" => c04::run(ctx, rep),
         "C05" => c05::run(ctx, rep),
         "C06" => c06::run(ctx, rep),
+        "C07" => c07::run(ctx, rep),
+        "C19" => c19::run(ctx, rep),
         #[cfg(feature = "std")]
         "C13" => c13::run(ctx, rep),
         _ => return false,
